@@ -181,6 +181,7 @@ func (group *Group) AddRtmpPullSession(session *rtmp.PullSession) error {
 	Log.Debugf("[%s] [%s] add PullSession into group.", group.UniqueKey, session.UniqueKey())
 
 	group.setRtmpPullSession(session)
+	group.pullProxy.pendingSession = nil
 	group.addIn()
 
 	if group.shouldStartRtspRemuxer() {
@@ -223,6 +224,7 @@ func (group *Group) AddRtspPullSession(session *rtsp.PullSession) error {
 	Log.Debugf("[%s] [%s] add PullSession into group.", group.UniqueKey, session.UniqueKey())
 
 	group.setRtspPullSession(session)
+	group.pullProxy.pendingSession = nil
 	group.addIn()
 
 	group.rtsp2RtmpRemuxer = remux.NewAvPacket2RtmpRemuxer().WithOnRtmpMsg(group.onRtmpMsgFromRemux)
@@ -357,6 +359,10 @@ func (group *Group) delRtspPubSession(session *rtsp.PubSession) {
 
 func (group *Group) delPullSession(session base.IObject) {
 	Log.Debugf("[%s] [%s] del PullSession from group.", group.UniqueKey, session.UniqueKey())
+
+	if group.pullProxy.pendingSession == session {
+		group.pullProxy.pendingSession = nil
+	}
 
 	// 注意，这个pull session有可能从来没有成为过group的输入：拉流失败，或者拉流成功前已经有其他输入（比如推流）进来了。
 	// 此时只结束本次拉流尝试，不能调用delIn，否则会把当前真正的输入的状态清掉。
